@@ -125,8 +125,9 @@ def run(ctx):
         Cb = hirq.Body(f, f.body(fn))
         ctx.analysed['bodies'].add(fn)
         n = 0
-        for o in absx.Interp(f, Cb).run():
-            nv = next((t for a, t in o.st.pc if a == ('field', ('param', 'settings'), 'no_tls_verify')), None)
+        is_flag = lambda a: a == ('field', ('param', 'settings'), 'no_tls_verify') or a == ('param', 'no_tls_verify')
+        for o in absx.Interp(f, Cb, combinators=True).run():
+            nv = next((t for a, t in o.st.pc if is_flag(a)), None)
             d = calls(o, danger)
             if o.kind == 'div':
                 continue
@@ -141,9 +142,14 @@ def run(ctx):
     if ts in f.hir:
         T = hirq.Body(f, f.body(ts))
         ctx.analysed['bodies'].add(ts)
-        outs = absx.Interp(f, T).run(root=T.root['body'] if T.root['k'] == 'Closure' else T.root)
+        outs = absx.Interp(f, T, combinators=True).run(root=T.root['body'] if T.root['k'] == 'Closure' else T.root)
         n = 0
         for o in outs:
+            # the default connector is built from the caller's own verification setting
+            for dc in [e for e in o.st.ev if e[0] == 'call' and (e[1].endswith('create_connector') or e[1].endswith('create_config'))]:
+                okf = any(a == ('param', 'settings') or a == ('field', ('param', 'settings'), 'no_tls_verify') or
+                          (a[0] == 'field' and a[2] == 'no_tls_verify' and absx.leaves(a, lambda x: x == ('param', 'settings'))) for a in dc[2])
+                ctx.add('W4.default-connector-from-own-settings', dc[1].split('::')[-1], loc(dc[3]), okf, 'the default connector is not built from this connection\'s settings')
             con = calls(o, 'TlsConnector::connect')
             if not con:
                 continue
